@@ -1,0 +1,104 @@
+//go:build verif
+
+package lite
+
+import (
+	"sort"
+	"time"
+
+	"go.minekube.com/gate/pkg/edition/java/proto/packet"
+	"go.minekube.com/gate/pkg/gate/proto"
+	"golang.org/x/sync/singleflight"
+)
+
+// Verification hooks for property C32 (add-only, no logic: constructor, accessors, thin forwarding functions).
+
+// C32FlightGroup is the (unexported) flightGroup interface of pingStatusCache.
+type C32FlightGroup interface {
+	DoChan(string, func() (any, error)) <-chan singleflight.Result
+}
+
+// C32Cache wraps a pingStatusCache built with an injected clock and flight group.
+type C32Cache struct{ c *pingStatusCache }
+
+// C32NewCache forwards to newPingStatusCache.
+func C32NewCache(now func() time.Time, group C32FlightGroup) *C32Cache {
+	return &C32Cache{c: newPingStatusCache(now, group)}
+}
+
+func c32Key(backend string, protocol int, routeGeneration uint64) pingKey {
+	return pingKey{backendAddr: backend, protocol: proto.Protocol(protocol), routeGeneration: routeGeneration}
+}
+
+// Get forwards to pingStatusCache.get; found reports a non-nil result.
+func (c *C32Cache) Get(backend string, protocol int, routeGeneration uint64) (res *packet.StatusResponse, err error, found bool) {
+	r := c.c.get(c32Key(backend, protocol, routeGeneration))
+	if r == nil {
+		return nil, nil, false
+	}
+	return r.res, r.err, true
+}
+
+// Load forwards to pingStatusCache.load.
+func (c *C32Cache) Load(backend string, protocol int, routeGeneration uint64, ttl time.Duration,
+	load func() (*packet.StatusResponse, error)) (*packet.StatusResponse, error) {
+	r := c.c.load(c32Key(backend, protocol, routeGeneration), ttl, func() *pingResult {
+		res, err := load()
+		return &pingResult{res: res, err: err}
+	})
+	return r.res, r.err
+}
+
+// Reset forwards to pingStatusCache.reset.
+func (c *C32Cache) Reset() { c.c.reset() }
+
+// Generation reads the cache generation.
+func (c *C32Cache) Generation() uint64 {
+	c.c.mu.Lock()
+	defer c.c.mu.Unlock()
+	return c.c.generation
+}
+
+// C32Entry is one stored cache item as seen by Dump.
+type C32Entry struct {
+	Backend         string
+	Protocol        int
+	RouteGeneration uint64
+	Res             *packet.StatusResponse
+	Err             error
+	TTL             time.Duration
+	HasExpiry       bool
+	ExpiresAt       time.Time
+}
+
+// Dump lists the items currently stored (ttlcache.Items: not expired by ttlcache's own clock), sorted.
+func (c *C32Cache) Dump() []C32Entry {
+	c.c.mu.Lock()
+	defer c.c.mu.Unlock()
+	var out []C32Entry
+	for k, it := range c.c.cache.Items() {
+		v := it.Value()
+		out = append(out, C32Entry{Backend: k.backendAddr, Protocol: int(k.protocol), RouteGeneration: k.routeGeneration,
+			Res: v.res, Err: v.err, TTL: it.TTL(), HasExpiry: !it.ExpiresAt().IsZero(), ExpiresAt: it.ExpiresAt()})
+	}
+	sort.Slice(out, func(i, j int) bool {
+		a, b := out[i], out[j]
+		if a.Backend != b.Backend {
+			return a.Backend < b.Backend
+		}
+		if a.Protocol != b.Protocol {
+			return a.Protocol < b.Protocol
+		}
+		return a.RouteGeneration < b.RouteGeneration
+	})
+	return out
+}
+
+// C32ResultOf unwraps the value a flight function returned (a *pingResult travelling through the flight group as any).
+func C32ResultOf(v any) (res *packet.StatusResponse, err error, ok bool) {
+	r, ok := v.(*pingResult)
+	if !ok || r == nil {
+		return nil, nil, false
+	}
+	return r.res, r.err, true
+}
